@@ -111,7 +111,7 @@ func genLong(r *Rand, class string) History {
 		sinceClean++
 		if sinceClean >= cleanEvery && s < last {
 			sinceClean = 0
-			h.Ops = append(h.Ops, Op{Kind: "clean", Epoch: s / spe})
+			h.Ops = append(h.Ops, Op{Kind: "clean", Epoch: s / spe, Off: s % spe})
 		}
 		// now and then somebody asks for a recent root while the chain advances
 		if next > 1 && r.Chance(1, 40) {
@@ -129,7 +129,7 @@ func genLong(r *Rand, class string) History {
 	// usually the cleaning job has just run at the current epoch; otherwise what it would remove is
 	// still in the map (and still has to be: nothing else removes entries)
 	if r.Chance(2, 3) {
-		h.Ops = append(h.Ops, Op{Kind: "clean", Epoch: curEpoch})
+		h.Ops = append(h.Ops, Op{Kind: "clean", Epoch: curEpoch, Off: elapsed})
 	}
 	windowStart := (curEpoch - 64) * spe
 	for root := uint64(1); root <= nroots && len(inWindowOldest) < int(2*spe)+8; root++ {
@@ -182,7 +182,7 @@ func genLong(r *Rand, class string) History {
 			next++
 		}
 		nroots = next - 1
-		h.Ops = append(h.Ops, Op{Kind: "clean", Epoch: curEpoch})
+		h.Ops = append(h.Ops, Op{Kind: "clean", Epoch: curEpoch, Off: h.Chain[nroots] % spe})
 		probe()
 	}
 	return h
